@@ -82,7 +82,7 @@ def run(ctx):
     if cases and not ctx.corr_broken and not ctx.violations:
         for k in ("failed_calls", "reapply_events", "traces_with_coalescing", "burst_checked", "ktraces_with_coalescing",
                   "real_body_scenarios", "real_reload_signal_failures",
-                  "deliver_schedules", "deliver_ends_with_shrink", "deliver_consumer_starts_after_first_timer", "deliver_applied_config_resubmitted_while_other_pending", "stream_scenarios", "stream_submissions_while_retry_pending", "kstream_scenarios", "mgrreal_rounds", "mgrreal_reload_in_progress_failed", "deliver_runs", "deliver_stream_runs", "deliver_debug_level_with_password", "reloader_rounds", "mgr_histories", "mgr_stepwise_histories", "mgr_bfd_syncs_same_size", "mgr_reload_signal_failures"):
+                  "deliver_schedules", "deliver_ends_with_shrink", "deliver_consumer_starts_after_first_timer", "deliver_applied_config_resubmitted_while_other_pending", "stream_scenarios", "stream_submissions_while_retry_pending", "kstream_scenarios", "mgrreal_rounds", "mgrreal_reload_in_progress_failed", "deliver_runs", "deliver_stream_runs", "deliver_debug_level_with_password", "deliver_extra_reconciles", "reloader_rounds", "mgr_histories", "mgr_stepwise_histories", "mgr_bfd_syncs_same_size", "mgr_reload_signal_failures"):
             if st.get(k, 0) == 0:
                 raise Exception("generator degenerate: counter %s is zero: %r" % (k, st))
 
